@@ -300,3 +300,9 @@ Theorem C05_fuel_is_never_decisive :
   (forall func bs k, (S (length bs) < k)%nat -> CastWalk.tcs_run k func bs [0] = CastWalk.traverse_check_string_b bs func).
 Proof. split; [exact FuelIndep.jbi_any_fuel|split; [exact FuelIndep.rd_words_any_fuel|split; [exact FuelIndep.values_any_fuel|split; [exact FuelIndep.tcs_entries_any_fuel|exact FuelIndep.traverse_check_string_any_fuel]]]]. Qed.
 Print Assumptions C05_fuel_is_never_decisive.
+
+(* L2/L3 (second review): get_by_index compares the caller's index with the length before anything else (no unary conversion of
+   a caller-chosen number: an index beyond the end -- up to usize::MAX -- is answered None at once) *)
+Theorem C05_get_by_index_beyond_the_end : forall l i, lenN l <= i -> TreeOps.get_by_index_t (VArr l) i = None.
+Proof. intros l i H. cbn [TreeOps.get_by_index_t]. destruct (lenN l <=? i) eqn:E; [reflexivity|apply N.leb_gt in E; exfalso; apply (N.lt_irrefl i); apply (N.lt_le_trans _ _ _ E H)]. Qed.
+Print Assumptions C05_get_by_index_beyond_the_end.
